@@ -22,6 +22,7 @@ extern int xv_exc;
 
 /* ghost index: arbitrary, so a statement about position xv_g holds for every position */
 extern unsigned long xv_a0, xv_a1, xv_a2, xv_a3, xv_a4, xv_a5, xv_a6, xv_a7;   /* ghost scalars defined by equalities in requires clauses (let-bindings of spec terms) */
+extern const void* xv_p0;   /* ghost pointer */
 extern unsigned long xv_g, xv_n, xv_k, xv_m;   /* xv_n, xv_k, xv_m: further ghost quantities (lengths, offsets) */
 
 /* allocation bound of the heap-storage models */
@@ -39,6 +40,13 @@ static inline void xv_str_push_back(xv_str* s, char c) { __CPROVER_assert(s->siz
 
 #define XV_VEC_AT(v,i) ((v)->data[i])
 #define XV_ARR_FILL(xp, xval) __CPROVER_array_set((xp)->a, (xval))   /* std::array::fill: every element set */
+
+/* unsigned multiplication as an uninterpreted function (units lowered with uf_mul): sound for proving that two
+   computations agree (they then agree for every interpretation of *, in particular for machine multiplication) */
+unsigned int __CPROVER_uninterpreted_umul32(unsigned int, unsigned int);
+unsigned long __CPROVER_uninterpreted_umul64(unsigned long, unsigned long);
+#define XV_UMUL32(a, b) __CPROVER_uninterpreted_umul32((a), (b))
+#define XV_UMUL64(a, b) __CPROVER_uninterpreted_umul64((a), (b))
 
 static inline void xv_abort(void) { __CPROVER_assume(0); }
 #endif
